@@ -5,9 +5,11 @@ package evictions
 // C16 (a) monitors for the eviction caps: PodEvictor.Evict and the bare EvictionLimiter driven by
 // 1-16 concurrent goroutines against a recording fake API server. See /verif/DESIGN.md C16 (a).
 //
-// Causal rules of the workload: every pod to evict is a running pod (has a node and a namespace);
-// each pod is evicted at most once per cycle (plugins pick distinct victims); API failures are a
-// pre-drawn property of the pod (so the script does not depend on the interleaving).
+// Causal rules of the workload: a pod to evict has a namespace and usually a node (12% are pending
+// pods without a node); plugins mostly pick distinct victims, in 10% of the cases some victims are
+// picked by two callers; API failures are a pre-drawn property of the pod (so the script does not
+// depend on the interleaving); while evictions run, other goroutines read the counters and the
+// limit-exceeded getters (plugins do that to decide whether to go on).
 //
 // Oracles: race detector (driver); conservation at quiescence; linearizability of fault-free
 // histories (recorded here at the client boundary, checked offline by tools/lincheck/porcupine).
@@ -106,29 +108,50 @@ func c16Seed() uint64 {
 	return s
 }
 
+// c16Cap draws a cap: unset, 0, small (1-3, the interesting range), medium, large, and the largest
+// value a uint holds. The second result is the cap as the offline checker reads it (-1 = no cap;
+// MaxUint can never bind and is reported as -1).
 func c16Cap(r *kit.Rand) (*uint, int64) {
-	switch r.Intn(6) {
+	switch r.Weighted(16, 14, 42, 14, 9, 5) {
 	case 0:
 		return nil, -1
 	case 1:
 		v := uint(0)
 		return &v, 0
-	default:
+	case 2:
 		v := uint(r.Range(1, 3))
 		return &v, int64(v)
+	case 3:
+		v := uint(r.Range(4, 8))
+		return &v, int64(v)
+	case 4:
+		v := kit.Pick(r, []uint{64, 1000, 1 << 40})
+		return &v, int64(v)
+	default:
+		v := ^uint(0)
+		return &v, -1
 	}
 }
+
+func c16Over(n int, limit *uint) bool { return limit != nil && uint(n) > *limit }
 
 type c16Pod struct {
 	pod  *corev1.Pod
 	fail int // 0 ok, 1 generic error, 2 TooManyRequests, 3 NotFound
 }
 
-func c16MakePods(r *kit.Rand, n, nodes, nss int, failPct int) []*c16Pod {
+func c16MakePods(r *kit.Rand, n, nodes, nss int, failPct, dupPct int, nodeName, nsName string) []*c16Pod {
 	pods := make([]*c16Pod, n)
 	for i := range pods {
-		p := &corev1.Pod{ObjectMeta: metav1.ObjectMeta{Name: fmt.Sprintf("p%d", i), Namespace: fmt.Sprintf("ns%d", r.Intn(nss)), UID: "uid"},
-			Spec: corev1.PodSpec{NodeName: fmt.Sprintf("node%d", r.Intn(nodes))}}
+		if i > 0 && r.Pct(dupPct) {
+			pods[i] = pods[r.Intn(i)] // two callers picked the same victim
+			continue
+		}
+		p := &corev1.Pod{ObjectMeta: metav1.ObjectMeta{Name: fmt.Sprintf("p%d", i), Namespace: fmt.Sprintf(nsName, r.Intn(nss)), UID: "uid"},
+			Spec: corev1.PodSpec{NodeName: fmt.Sprintf(nodeName, r.Intn(nodes))}}
+		if r.Pct(12) {
+			p.Spec.NodeName = "" // pending pod: the per-node cap has no node to apply to
+		}
 		cp := &c16Pod{pod: p}
 		if r.Pct(failPct) {
 			cp.fail = r.Range(1, 3)
@@ -211,25 +234,50 @@ func c16Yielder(r *kit.Rand) func() {
 
 func TestVerifC16PodEvictor(t *testing.T) {
 	kit.Run(t, kit.Config{Property: "C16", Unit: "podevictor", Quick: 5000, Thorough: 40000,
-		Rule: "PodEvictor with per-node / per-namespace caps unset|0|1-3, 1-16 goroutines each evicting 1-4 distinct pods over 1-3 nodes x 1-3 namespaces against a recording fake API server whose reactor yields; 40% of cases script API failures per pod; 8% dry-run; distinct = (caps, goroutines, faults?, arrival order of API requests with results); non-trivial = >=2 goroutines and some cap that binds (more requests than the cap on a node/namespace)"},
+		Rule: "PodEvictor with per-node / per-namespace caps unset|0|1-3|4-8|large|MaxUint, 1-16 goroutines each evicting 1-8 pods (mostly distinct, in 10% of the cases some victims twice; 12% pods without a node) over 1-6 nodes x 1-5 namespaces (names may collide) against a recording fake API server whose reactor yields, 0-2 goroutines reading counters / limit-exceeded getters meanwhile; 40% of cases script API failures per pod; 8% dry-run; delete options / plugin name from context varied; distinct = (caps, goroutines, faults?, arrival order of API requests with results); non-trivial = >=2 goroutines and some cap that binds (more requests than the cap on a node/namespace)"},
 		func(c *kit.Case) {
 			r := c.R
 			nodeCap, nodeCapV := c16Cap(r)
 			nsCap, nsCapV := c16Cap(r)
 			dry := r.Pct(8)
 			g := kit.Pick(r, []int{1, 2, 2, 3, 4, 4, 6, 8, 12, 16})
-			nodes, nss := r.Range(1, 3), r.Range(1, 3)
+			nodes, nss := kit.Pick(r, []int{1, 2, 2, 3, 3, 4, 6}), kit.Pick(r, []int{1, 2, 2, 3, 3, 5})
+			nodeName, nsName := "node%d", "ns%d"
+			if r.Pct(10) {
+				nodeName, nsName = "x%d", "x%d" // node and namespace names collide
+			}
 			failPct := 0
 			if r.Pct(40) {
 				failPct = kit.Pick(r, []int{10, 30, 60, 100})
 			}
+			dupPct := 0
+			if r.Pct(10) {
+				dupPct = 25
+			}
+			maxPer := 4
+			if r.Pct(15) {
+				maxPer = 8
+			}
 			per := make([]int, g)
 			total := 0
 			for i := range per {
-				per[i] = r.Range(1, 4)
+				per[i] = r.Range(1, maxPer)
+				if total+per[i] > 64-(g-1-i) {
+					per[i] = 1
+				}
 				total += per[i]
 			}
-			pods := c16MakePods(r, total, nodes, nss, failPct)
+			pods := c16MakePods(r, total, nodes, nss, failPct, dupPct, nodeName, nsName)
+			readers := 0
+			if r.Pct(50) {
+				readers = r.Range(1, 2)
+			}
+			var delOpts *metav1.DeleteOptions
+			if r.Pct(30) {
+				gp := int64(kit.Pick(r, []int{0, 1, 30}))
+				delOpts = &metav1.DeleteOptions{GracePeriodSeconds: &gp}
+			}
+			ctxNamed := r.Pct(30) // plugin name and reason come from the context, as in RunDeschedulePlugins
 			api := &c16API{ok: map[string]bool{}, fail: map[string]int{}, yield: c16Yielder(r.Fork())}
 			anyFail := false
 			for _, p := range pods {
@@ -238,8 +286,26 @@ func TestVerifC16PodEvictor(t *testing.T) {
 					anyFail = true
 				}
 			}
-			pe := NewPodEvictor(api.client(), c16Recorder{}, "v1", dry, nodeCap, nsCap)
-			c.Op("caps node=%d ns=%d dry=%v goroutines=%d pods=%d failPct=%d", nodeCapV, nsCapV, dry, g, total, failPct)
+			pe := NewPodEvictor(api.client(), c16Recorder{}, kit.Pick(r, []string{"v1", "policy/v1", ""}), dry, nodeCap, nsCap)
+			c.Op("caps node=%d ns=%d dry=%v goroutines=%d pods=%d failPct=%d dupPct=%d readers=%d", nodeCapV, nsCapV, dry, g, total, failPct, dupPct, readers)
+			// concurrent readers of the counters (no oracle of their own: they are there for the race detector)
+			var stop int32
+			var rwg sync.WaitGroup
+			for ri := 0; ri < readers; ri++ {
+				rwg.Add(1)
+				go func(ri int) {
+					defer rwg.Done()
+					for i := 0; atomic.LoadInt32(&stop) == 0; i++ {
+						n, ns := fmt.Sprintf(nodeName, (i+ri)%nodes), fmt.Sprintf(nsName, (i+ri)%nss)
+						_ = pe.NodeEvicted(n)
+						_ = pe.NamespaceEvicted(ns)
+						_ = pe.TotalEvicted()
+						_ = pe.NodeLimitExceeded(n)
+						_ = pe.NamespaceLimitExceeded(ns)
+						api.yield()
+					}
+				}(ri)
+			}
 			var clock int64
 			ops := make([][]c16Op, g)
 			results := make([]bool, total)
@@ -256,7 +322,12 @@ func TestVerifC16PodEvictor(t *testing.T) {
 					<-startCh
 					for j, p := range mine {
 						call := atomic.AddInt64(&clock, 1)
-						ok := pe.Evict(context.TODO(), p.pod, framework.EvictOptions{PluginName: "verif", Reason: "c16"})
+						ctx, opts := context.TODO(), framework.EvictOptions{PluginName: "verif", Reason: "c16", DeleteOptions: delOpts}
+						if ctxNamed {
+							ctx = framework.PluginNameWithContext(ctx, "verif-from-context")
+							opts.PluginName = ""
+						}
+						ok := pe.Evict(ctx, p.pod, opts)
 						ret := atomic.AddInt64(&clock, 1)
 						results[base+j] = ok
 						out := int64(0)
@@ -269,17 +340,30 @@ func TestVerifC16PodEvictor(t *testing.T) {
 			}
 			close(startCh)
 			wg.Wait()
+			atomic.StoreInt32(&stop, 1)
+			rwg.Wait()
 			// ---- quiescent: conservation oracles
 			okNode, okNS := map[string]int{}, map[string]int{}
 			reqNode, reqNS := map[string]int{}, map[string]int{}
-			okTotal := 0
+			okTotal, noNode := 0, 0
 			byKey := map[string]*c16Pod{}
-			for _, p := range pods {
-				byKey[p.pod.Namespace+"/"+p.pod.Name] = p
-				reqNode[p.pod.Spec.NodeName]++
+			calls, trueCnt := map[string]int{}, map[string]int{}
+			for i, p := range pods {
+				k := p.pod.Namespace + "/" + p.pod.Name
+				byKey[k] = p
+				calls[k]++
+				if results[i] {
+					trueCnt[k]++
+				}
+				if p.pod.Spec.NodeName != "" {
+					reqNode[p.pod.Spec.NodeName]++
+				} else {
+					noNode++
+				}
 				reqNS[p.pod.Namespace]++
 			}
-			seen := map[string]int{}
+			c.Count("pods_without_node", noNode)
+			seen, okCnt := map[string]int{}, map[string]int{}
 			arrival := ""
 			for _, k := range api.received {
 				seen[k]++
@@ -288,15 +372,18 @@ func TestVerifC16PodEvictor(t *testing.T) {
 					c.Harness("API saw unknown pod %s", k)
 				}
 				arrival += fmt.Sprintf("%s:%d,", k, p.fail)
-				if api.ok[k] {
-					okNode[p.pod.Spec.NodeName]++
+				if p.fail == 0 {
+					okCnt[k]++
+					if p.pod.Spec.NodeName != "" {
+						okNode[p.pod.Spec.NodeName]++
+					}
 					okNS[p.pod.Namespace]++
 					okTotal++
 				}
 			}
 			for i, p := range pods {
 				k := p.pod.Namespace + "/" + p.pod.Name
-				c.Op("evict %s node=%s fail=%d -> %v (api requests=%d)", k, p.pod.Spec.NodeName, p.fail, results[i], seen[k])
+				c.Op("evict %s node=%s fail=%d -> %v (api requests for the pod=%d of %d Evict calls)", k, p.pod.Spec.NodeName, p.fail, results[i], seen[k], calls[k])
 			}
 			c.Count("evict_calls", total)
 			c.Count("api_requests", len(api.received))
@@ -310,17 +397,20 @@ func TestVerifC16PodEvictor(t *testing.T) {
 			}
 			binds := false
 			for n, k := range okNode {
-				if nodeCap != nil && k > int(*nodeCap) {
+				if c16Over(k, nodeCap) {
 					c.Fail("C16/podevictor/node-cap-exceeded", "%d evictions were issued successfully on %s, per-node cap is %d (goroutines=%d)", k, n, *nodeCap, g)
 				}
 			}
 			for n, k := range okNS {
-				if nsCap != nil && k > int(*nsCap) {
+				if c16Over(k, nsCap) {
 					c.Fail("C16/podevictor/namespace-cap-exceeded", "%d evictions were issued successfully in %s, per-namespace cap is %d (goroutines=%d)", k, n, *nsCap, g)
 				}
 			}
+			if got := pe.NodeEvicted(""); got != 0 {
+				c.Fail("C16/podevictor/node-counter", "NodeEvicted(\"\")=%d: evictions of pods without a node were booked on the empty node name", got)
+			}
 			for n, k := range reqNode {
-				if nodeCap != nil && k > int(*nodeCap) {
+				if c16Over(k, nodeCap) {
 					binds = true
 				}
 				if got := pe.NodeEvicted(n); int(got) != okNode[n] {
@@ -328,7 +418,7 @@ func TestVerifC16PodEvictor(t *testing.T) {
 				}
 			}
 			for n, k := range reqNS {
-				if nsCap != nil && k > int(*nsCap) {
+				if c16Over(k, nsCap) {
 					binds = true
 				}
 				if got := pe.NamespaceEvicted(n); int(got) != okNS[n] {
@@ -338,26 +428,31 @@ func TestVerifC16PodEvictor(t *testing.T) {
 			if got := pe.TotalEvicted(); got != okTotal {
 				c.Fail("C16/podevictor/total-counter", "TotalEvicted()=%d but %d evictions were issued successfully", got, okTotal)
 			}
-			for i, p := range pods {
-				k := p.pod.Namespace + "/" + p.pod.Name
-				if seen[k] > 1 {
-					c.Fail("C16/podevictor/duplicate-request", "pod %s was evicted through the API %d times by one Evict call", k, seen[k])
+			for k, n := range calls {
+				if n > 1 {
+					c.Count("duplicate_victims", n-1)
 				}
-				if results[i] && !api.ok[k] {
-					c.Fail("C16/podevictor/reported-without-eviction", "Evict(%s) returned true but no successful API eviction was issued", k)
+				if seen[k] > n {
+					c.Fail("C16/podevictor/duplicate-request", "pod %s was evicted through the API %d times by %d Evict calls", k, seen[k], n)
 				}
-				if !results[i] && api.ok[k] {
-					c.Fail("C16/podevictor/evicted-but-refused", "Evict(%s) returned false but the API eviction was issued successfully (side effect of a refused call)", k)
+				if trueCnt[k] > okCnt[k] {
+					c.Fail("C16/podevictor/reported-without-eviction", "%d Evict(%s) calls returned true but %d successful API evictions were issued", trueCnt[k], k, okCnt[k])
 				}
-				if !results[i] && seen[k] == 0 {
-					c.Count("refused_without_api_call", 1)
+				if trueCnt[k] < okCnt[k] {
+					c.Fail("C16/podevictor/evicted-but-refused", "%d API evictions of %s were issued successfully but only %d Evict calls returned true (side effect of a refused call)", okCnt[k], k, trueCnt[k])
 				}
+				c.Count("refused_without_api_call", n-seen[k])
 			}
 			if g >= 2 && binds {
 				c.NonTrivial()
 			}
 			c.Seen(nodeCapV, nsCapV, g, anyFail, arrival)
-			if !anyFail {
+			if !anyFail && nodeCapV == 0 && noNode > 0 {
+				// PodEvictor refuses a pod without a node when the per-node cap is 0 (count("") >= 0); the
+				// sequential specification says the node cap does not apply to it. The statement allows
+				// either (a refusal breaks no cap), so this history is not handed to the checker.
+				c.Count("histories_not_recorded_nodeless_pod_under_zero_node_cap", 1)
+			} else if !anyFail {
 				var all []c16Op
 				for _, o := range ops {
 					all = append(all, o...)
@@ -379,21 +474,24 @@ func TestVerifC16PodEvictor(t *testing.T) {
 // nothing about it.
 func TestVerifC16Limiter(t *testing.T) {
 	kit.Run(t, kit.Config{Property: "C16", Unit: "limiter", Quick: 5000, Thorough: 40000,
-		Rule: "bare EvictionLimiter (caps node/namespace/total unset|0|1-3) used by 1-8 goroutines issuing 3-8 operations each from {AllowEvict, Done, NodeEvicted, NamespaceEvicted, TotalEvicted, rare Reset} over 1-2 nodes x 1-2 namespaces; every history (<=40 ops) is checked offline for linearizability; distinct/non-trivial are measured by the offline checker"},
+		Rule: "bare EvictionLimiter (caps node/namespace/total unset|0|1-3|4-8|large|MaxUint) used by 1-16 goroutines issuing 1-8 operations each (<=40 recorded operations, <=24 above 8 goroutines) from {AllowEvict, Done, NodeEvicted, NamespaceEvicted, TotalEvicted, rare Reset; unrecorded *LimitExceeded calls} over 1-3 nodes x 1-3 namespaces, pods without node; every history (<=40 ops) is checked offline for linearizability; distinct/non-trivial are measured by the offline checker"},
 		func(c *kit.Case) {
 			r := c.R
 			nodeCap, nodeCapV := c16Cap(r)
 			nsCap, nsCapV := c16Cap(r)
 			totCap, totCapV := c16Cap(r)
 			l := NewEvictionLimiter(nodeCap, nsCap, totCap)
-			g := kit.Pick(r, []int{1, 2, 2, 3, 4, 5, 8})
-			nodes, nss := r.Range(1, 2), r.Range(1, 2)
+			g := kit.Pick(r, []int{1, 2, 2, 2, 3, 3, 4, 4, 4, 5, 5, 6, 8, 8, 8, 8, 8, 8, 12, 16})
+			nodes, nss := r.Range(1, 3), r.Range(1, 3)
 			type planned struct {
 				op       string
 				node, ns string
 			}
 			plans := make([][]planned, g)
 			budget := 40
+			if g > 8 {
+				budget = 24 // wide histories are what the offline checker pays for: keep them short
+			}
 			for gi := range plans {
 				n := r.Range(3, 8)
 				if n > budget/g {
@@ -401,9 +499,16 @@ func TestVerifC16Limiter(t *testing.T) {
 				}
 				for j := 0; j < n; j++ {
 					op := []string{"allow", "done", "node", "ns", "total", "reset"}[r.Weighted(30, 30, 12, 12, 12, 2)]
+					if r.Pct(8) {
+						op = "exceeded" // NodeLimitExceeded / NamespaceLimitExceeded: called, not recorded
+						j--
+					}
 					node := fmt.Sprintf("node%d", r.Intn(nodes))
 					if (op == "allow" || op == "done") && r.Pct(12) {
 						node = "" // a pod that is not assigned to a node: namespace and total caps only
+					}
+					if op == "node" && r.Pct(8) {
+						node = "" // nothing may ever be booked on the empty node name
 					}
 					plans[gi] = append(plans[gi], planned{op, node, fmt.Sprintf("ns%d", r.Intn(nss))})
 				}
@@ -438,6 +543,10 @@ func TestVerifC16Limiter(t *testing.T) {
 							out = int64(l.TotalEvicted())
 						case "reset":
 							l.Reset()
+						case "exceeded":
+							_ = l.NodeLimitExceeded(&corev1.Node{ObjectMeta: metav1.ObjectMeta{Name: p.node}})
+							_ = l.NamespaceLimitExceeded(p.ns)
+							continue
 						}
 						ret := atomic.AddInt64(&clock, 1)
 						ops[gi] = append(ops[gi], c16Op{Proc: gi, Call: call, Ret: ret, Op: p.op, Node: p.node, NS: p.ns, Out: out})
